@@ -306,13 +306,14 @@ pub fn oracle2(case: &ProgCase, index: u64, ctx: &mut Ctx) {
 
 pub fn spaces(tier: Tier, _seed: u64) -> Vec<Box<dyn Space>> {
     match tier {
-        Tier::Quick => vec![gprog::annotated(oracle1), gprog::redeclarations(oracle1), gprog::library_clashes(oracle1), gprog::undeclared_calls(oracle1), gprog::const_assign_after_diagnostic(oracle1), gprog::spines(0, false, true, false, oracle1), gprog::spines(1, false, true, true, oracle1), gprog::sequences(1, true, true, oracle1), gprog::spines(0, false, false, false, oracle1), gprog::grid(0, true, true, oracle1), gprog::sequences(2, true, true, oracle1)],
+        Tier::Quick => vec![gprog::annotated(oracle1), gprog::redeclarations(oracle1), gprog::library_clashes(oracle1), gprog::undeclared_calls(oracle1), gprog::const_assign_after_diagnostic(oracle1), gprog::notice_then_diagnostic(oracle1), gprog::spines(0, false, true, false, oracle1), gprog::spines(1, false, true, true, oracle1), gprog::sequences(1, true, true, oracle1), gprog::spines(0, false, false, false, oracle1), gprog::grid(0, true, true, oracle1), gprog::sequences(2, true, true, oracle1)],
         Tier::Thorough => vec![
             gprog::annotated(oracle2),
             gprog::redeclarations(oracle2),
             gprog::library_clashes(oracle2),
             gprog::undeclared_calls(oracle2),
             gprog::const_assign_after_diagnostic(oracle2),
+            gprog::notice_then_diagnostic(oracle2),
             gprog::spines(0, false, true, false, oracle2),
             gprog::spines(1, false, true, true, oracle1),
             gprog::sequences(1, true, true, oracle2),
